@@ -1,0 +1,37 @@
+//go:build verif
+
+package grpc
+
+// Contracts checked by /verif (contract-based deductive verification).
+// This file is comment-only; it is compiled only with -tags=verif.
+
+//@ import math "math"
+
+// ---- C19: retry throttling token bucket (gRFC A6), IEEE-754 binary64 --------
+
+//@ spec func thrInv(rt *retryThrottler) bool {
+//@   return !math.IsNaN(rt.tokens) && rt.tokens >= 0 && rt.tokens <= rt.max &&
+//@     rt.max > 0 && rt.max <= 1000 && rt.thresh == rt.max/2 && rt.ratio > 0
+//@ }
+
+//@ func (*retryThrottler).throttle
+//@   prop C19
+//@   arith bv
+//@   nopanic
+//@   opt atomic mu
+//@   modifies rt.tokens
+//@   requires rt == nil || thrInv(rt)
+//@   ensures implies(rt == nil, !result)
+//@   ensures implies(rt != nil, thrInv(rt))
+//@   ensures implies(rt != nil, rt.tokens == ite(old(rt.tokens)-1 < 0, 0, old(rt.tokens)-1))
+//@   ensures implies(rt != nil, result == (rt.tokens <= rt.max/2))
+
+//@ func (*retryThrottler).successfulRPC
+//@   prop C19
+//@   arith bv
+//@   nopanic
+//@   opt atomic mu
+//@   modifies rt.tokens
+//@   requires rt == nil || thrInv(rt)
+//@   ensures implies(rt != nil, thrInv(rt))
+//@   ensures implies(rt != nil, rt.tokens == ite(old(rt.tokens)+rt.ratio > rt.max, rt.max, old(rt.tokens)+rt.ratio))
